@@ -305,8 +305,10 @@ enum LayoutEnd {
     Fuel,
 }
 
+/// The bound proved in Lean (`layout_total`: at most 40n+7 calls of layout_next_token for n
+/// input tokens); a real Layout that needs more is a violation (`hang:layout:unbounded-output`).
 fn layout_fuel(n: usize) -> usize {
-    20 * n + 100
+    40 * n + 7
 }
 
 fn run_real_layout(toks: &[LTok], eof: LTok) -> (Vec<(K, u32, u32)>, LayoutEnd) {
@@ -389,7 +391,7 @@ fn layout_case(out: &mut Out, toks: &[LTok], eof: LTok, origin: &str) -> LayoutE
         ),
         LayoutEnd::Fuel => out.oracle_fail(
             "hang:layout:unbounded-output",
-            "Layout produced more than 20n+100 tokens for n input tokens",
+            "Layout produced more than 40n+7 tokens for n input tokens (the bound proved for the model)",
             replay.clone(),
         ),
         _ => {}
@@ -1085,16 +1087,23 @@ thread_local! {
 }
 
 fn install_panic_hook() {
+    // fingerprint of a panic = source file + message (not the line: lines shift with every edit)
     std::panic::set_hook(Box::new(|info| {
-        let loc = info
+        let file = info
             .location()
             .map(|l| {
                 let f = l.file();
-                let f = f.rsplit("/repo/").next().unwrap_or(f);
-                format!("{}:{}", f, l.line())
+                f.rsplit("/repo/").next().unwrap_or(f).to_string()
             })
             .unwrap_or_else(|| "?".into());
-        LAST_PANIC.with(|p| *p.borrow_mut() = loc);
+        let msg = if let Some(s) = info.payload().downcast_ref::<String>() {
+            s.clone()
+        } else if let Some(s) = info.payload().downcast_ref::<&str>() {
+            s.to_string()
+        } else {
+            "panic".to_string()
+        };
+        LAST_PANIC.with(|p| *p.borrow_mut() = format!("{}:{}", file, short(&msg)));
     }));
 }
 
